@@ -12,10 +12,10 @@ def check(rep):
     ER.rule_init_delegates(ctx)
     ER.rule_call_forwards(ctx, rid="C11.CALL-FORWARDS")
     ER.rule_fresh_per_parse(ctx, rid="C11.FRESH-PER-PARSE")
-    ER.rule_no_shared_state(ctx, rid="C11.NO-SHARED-STATE")
+    ER.rule_value_keyed_caches(ctx, rid="C11.NO-VALUE-KEYED-CACHE", modules={"experiment_evaluator.py", "utils/wraper_functions.py"})
     return ("Commit-point ordering by path enumeration of recompile(): on every path all may-raise statements precede all state "
             "writes (so a raising recompile has written nothing and raises again next time); the only skip is an exact fingerprint "
             "match of the whole argument text, and the stored fingerprint is only assigned that value after the swap; all writes "
             "are instance writes and class-level defaults immutable; exec runs in a fresh dict of the call and the installed "
-            "function is read from it unwrapped; parse_source builds fresh lexer/parser objects; no module/class-level state "
-            "or cache anywhere in the package.", TRUSTED)
+            "function is read from it unwrapped; parse_source builds fresh lexer/parser objects; no ==-keyed cache in the "
+            "evaluator or the parse wrapper.", TRUSTED)
